@@ -43,10 +43,8 @@ T = {
          "bytes are accepted as one message consuming every byte, the parsed value equals the original, and regenerating gives the same bytes; proved from grammar completeness, "
          "parse_dec (show_dec n) = n, and trimming lemmas.",
          "Relative to the per-target premise uri_ok (rhymuri: Display then parse is the identity, displayed text is graphic ASCII), checked for every generated target by the run; K2 is where it fails. Header folding on generate is not modelled (values needing folding are outside the statement)."),
- "C11": ("Theorems C11_request_reserialise, C11_parsed_headers_wellformed, C11_accepted_response_value, C11_response_reserialise: an accepted request (graphic method, uri_ok target, "
-         "re-serialised lines within limits) and an accepted Content-Length/body-less response re-serialise to a message that parses to the same value; for chunked responses the "
-         "parsed value is identified as the C12 rewriting and the round trip is proved under the premise that it is well-formed (Example C11_chunked_example; every case of the run does parse->generate->parse on both sides).",
-         "PARTIAL: methods with non-graphic bytes and the well-formedness of the rewritten chunked header list are premises, not conclusions. Known findings K2, K3 (rhymuri)."),
+ "C11": ("Theorems C11_every_accepted_response_reserialises + C11_accepted_response_wellformed: every response the parser accepts (Content-Length, chunked or body-less) is a well-formed value -- legal names, printable trimmed values, for chunked input the C12 rewriting with a single Content-Length equal to the de-chunked body (C11_dechunked_headers_wellformed) -- and generating from it gives a message that parses to the same value with the whole output consumed. C11_request_reserialise, C11_parsed_headers_wellformed: the same for an accepted request with a graphic method, uri_ok target and re-serialised lines within the limits.",
+         "Requests whose method contains non-graphic bytes are covered by the correspondence run only (parse->generate->parse on both sides for every case). uri_ok is the premise about rhymuri; known findings K2, K3 are where it fails. Bodies longer than usize::MAX are excluded by an explicit premise."),
  "C12": ("Theorems C12_content_length (single value = decoded body length), C12_transfer_encoding (final coding removed, the others kept in order in one header joined by ', ', "
          "no header when none remain), C12_no_trailer_header, C12_other_headers (originals then non-framing trailer fields, order and values kept), C12_trailer_framing_fields_ignored, "
          "C12_parser_stores_rewrite; list lemmas over the header-collection model (Proofs/HeaderAlgebra.v).",
